@@ -267,13 +267,9 @@ func cmdCheck(argv []string) int {
 				// compare observations and covers
 				mismatch := c.panicked != "" || !sameObs(c.witness.Obs, c.out) || !sameCovers(c.witness.Covers, c.out)
 				if c.witness.Concurrent {
-					// the native schedule is the runtime's: only an assertion failure or panic is a mismatch
-					mismatch = c.panicked != ""
-					for _, l := range c.out {
-						if strings.HasPrefix(l, "VERIF-ASSERT-FAIL") {
-							mismatch = true
-						}
-					}
+					// the native schedule is the runtime's, not the path's: whatever the native run shows
+					// belongs to another interleaving, so it neither validates nor contradicts this path
+					continue
 				}
 				if mismatch {
 					tracesMismatch++
